@@ -54,9 +54,23 @@ func c07Env_() *c07Env {
 			e.real = append(e.real, q)
 			e.obs = append(e.obs, o)
 		}
+		// degenerate variants (shape numbers NShapes..): zero rows, one row, one row left of a sorted frame
+		for _, q := range []qframe.QFrame{model.Build(base.Rows(nil)), model.Build(base.Rows([]int{2})), model.Build(base).Sort(qframe.Order{Column: "i"}).Slice(3, 4)} {
+			o := model.Observe(q)
+			o.AdoptMeta(base)
+			e.real = append(e.real, q)
+			e.obs = append(e.obs, o)
+		}
 		c07env = e
 	}
 	return c07env
+}
+
+func c07ShapeName(s int) string {
+	if s < model.NShapes {
+		return model.ShapeNames[s]
+	}
+	return []string{"zero-rows", "one-row", "one-row-of-a-sorted-frame"}[s-model.NShapes]
 }
 
 func runEvalCase(c evalCase) *core.Failure {
@@ -78,7 +92,7 @@ func runEvalCase(c evalCase) *core.Failure {
 	want := model.Eval(in, c.Dst, c.Expr, c.User)
 	if d := model.Diff(want, got); d != "" {
 		return core.Failf("Eval(%q, %s) style=%s user_ctx=%v on %s frame: %s\n input: %s\n  want: %s\n   got: %s",
-			c.Dst, c.Expr, c.Style, c.User, model.ShapeNames[c.Shape], d, in, want, got)
+			c.Dst, c.Expr, c.Style, c.User, c07ShapeName(c.Shape), d, in, want, got)
 	}
 	after := model.Observe(qf)
 	after.AdoptMeta(in)
@@ -222,7 +236,7 @@ func c07Run(ctx *core.Ctx) {
 			ctx.Nontrivial(fmt.Sprintf("%s|%s|%s|%v", c.Dst, c.Expr, c.Style, c.User))
 		}
 		if ctx.WantSample() && ctx.Index()%3001 == 9 {
-			ctx.Sample(map[string]interface{}{"dst": c.Dst, "expr": c.Expr.String(), "style": c.Style, "user_ctx": c.User, "shape": model.ShapeNames[c.Shape]})
+			ctx.Sample(map[string]interface{}{"dst": c.Dst, "expr": c.Expr.String(), "style": c.Style, "user_ctx": c.User, "shape": c07ShapeName(c.Shape)})
 		}
 	}
 	dsts := []string{"new", "i", "s", "e"}
@@ -237,7 +251,7 @@ func c07Run(ctx *core.Ctx) {
 						if !ctx.Mine() {
 							continue
 						}
-						shape := int(ctx.Index() % int64(model.NShapes))
+						shape := int(ctx.Index() % int64(model.NShapes+3))
 						exec(evalCase{Shape: shape, Dst: dst, Expr: e, Style: style, User: user})
 					}
 				}
